@@ -197,10 +197,33 @@ func (c *Ctx) dictRecursionShape() {
 		var bits []bool
 		var calls []*ssa.Call
 		allInstrs(f, func(_ *ssa.BasicBlock, in ssa.Instruction) {
-			if cl, ok := in.(*ssa.Call); ok && callQName(&cl.Call) == bocPath+".BitString.WriteBit" {
+			cl, ok := in.(*ssa.Call)
+			if !ok {
+				return
+			}
+			if callQName(&cl.Call) == bocPath+".BitString.WriteBit" {
 				if b, ok := constBool(cl.Call.Args[1]); ok {
 					bits = append(bits, b)
 					calls = append(calls, cl)
+				}
+				return
+			}
+			// the copy-and-extend step in an unexported helper that takes the branch bit as a parameter
+			// (branchPrefix(prefix, isRight)): the call site's constant is the bit
+			if h := plainHelper(cl.Call.StaticCallee()); h != nil && h != f {
+				for _, hc := range callsTo(h, bocPath+".BitString.WriteBit") {
+					prm, ok := hc.Call.Args[1].(*ssa.Parameter)
+					if !ok {
+						continue
+					}
+					for i, q := range h.Params {
+						if q == prm && i < len(cl.Call.Args) {
+							if b, ok := constBool(cl.Call.Args[i]); ok {
+								bits = append(bits, b)
+								calls = append(calls, cl)
+							}
+						}
+					}
 				}
 			}
 		})
